@@ -464,6 +464,22 @@ class RequestHandler(BaseProtocol, Generic[_Request]):
 
     def data_received(self, data: bytes) -> None:
         if self._force_close or self._close:
+            # Closing: no new message is accepted, but while the connection
+            # is still open the request that is being handled keeps
+            # receiving the rest of its body.
+            request = self._current_request
+            if (
+                request is not None
+                and not request.content.is_eof()
+                and self.transport is not None
+                and self._parser is not None
+                and self._payload_parser is None
+                and not self._upgraded
+            ):
+                try:
+                    self._parser.feed_data(data)
+                except HttpProcessingError:
+                    pass
             return
         # parse http messages
         messages: Sequence[_MsgType]
